@@ -27,6 +27,12 @@
 (* ExpandRule = "atleast1" (a row is never swallowed) | "shipped" (the     *)
 (*              code: the number of lines of a row with list cells is the  *)
 (*              longest list, which may be 0: the row vanishes)            *)
+(* CsvCtx     = "own": render_csv runs the SAME renderers and row driver   *)
+(*              under a context of its own -- no spacing rows, list items  *)
+(*              joined by one comma -- whatever options the caller hands   *)
+(*              over (the application passes ALL its settings to every     *)
+(*              format); "inherit" (broken on purpose): the caller's       *)
+(*              text options leak into that context                        *)
 (***************************************************************************)
 EXTENDS Integers, Sequences, FiniteSets, TLC
 
@@ -35,7 +41,8 @@ CONSTANTS
     NullLens,     \* lengths of the NULL placeholder
     SepLens,      \* lengths of the list separator
     WidthRule,
-    ExpandRule
+    ExpandRule,
+    CsvCtx        \* "own" (render_csv builds its own context) | "inherit" (deliberately broken: non-vacuity run)
 
 Max2(a, b) == IF a >= b THEN a ELSE b
 Min2(a, b) == IF a <= b THEN a ELSE b
@@ -351,6 +358,48 @@ Prepared(col, o) == Prepare(col.t, FoldUpdate(col.t, InitRS(col.t), col.vals, o)
 RuleWidth(col, o) == WidthOf(col.hl, Prepared(col, o).mw, o)
 
 -----------------------------------------------------------------------------
+(* CSV (render_csv).  Mechanism: the same column renderers Update, Prepare, Format and the same row driver
+   (NULL -> placeholder, expansion lines, and -- only if the context says so -- spacing rows) as the text renderer,
+   but under the context render_csv makes for itself.  The caller's option record o is the FULL record (the
+   application hands every setting to every format): only expand and the placeholder may matter.
+   A record is [kind, r, j, fields]: fields = the visible length of every field (padding aside). *)
+CsvOpt(o) == IF CsvCtx = "inherit" THEN o ELSE [o EXCEPT !.spaced = FALSE, !.sl = 1]
+RECURSIVE CsvFrom(_, _, _, _)
+CsvFrom(tb, rs, rr, co) ==
+    IF rr > NRows(tb) THEN <<>>
+    ELSE LET rc == RowCells(tb, rs, rr, co)
+             nl == NLines(tb, rs, rr, co)
+         IN [j \in 1..nl |-> [kind |-> "row", r |-> rr, j |-> j,
+                              fields |-> [c \in 1..Len(tb) |-> IF j <= Len(rc[c]) THEN rc[c][j].n ELSE 0]]]
+            \o (IF co.spaced THEN << [kind |-> "space", r |-> rr, j |-> 0, fields |-> [c \in 1..Len(tb) |-> 0]] >>
+                ELSE <<>>)
+            \o CsvFrom(tb, rs, rr + 1, co)
+CsvRecs(tb, o) == CsvFrom(tb, [c \in 1..Len(tb) |-> Prepared(tb[c], CsvOpt(o))], 1, CsvOpt(o))
+
+(* The property (C16, CSV half), declaratively: one record per (expanded) row -- WantLines, which knows nothing of
+   spaced / boxed / unicode / narrow / the list separator --, each with exactly one field per column ... *)
+RECURSIVE CsvWantKinds(_, _, _)
+CsvWantKinds(tb, rr, o) ==
+    IF rr > NRows(tb) THEN <<>>
+    ELSE [j \in 1..WantLines(tb, rr, o) |-> <<rr, j>>] \o CsvWantKinds(tb, rr + 1, o)
+CsvWant(tb, o) == CsvWantKinds(tb, 1, o)
+CsvShapeOK(recs, tb, o) ==
+    /\ [q \in 1..Len(recs) |-> <<recs[q].r, recs[q].j>>] = CsvWant(tb, o)
+    /\ \A q \in 1..Len(recs) : recs[q].kind = "row" /\ Len(recs[q].fields) = Len(tb)
+(* ... each field holding what the text renderer's cell of that row line shows, padding aside, list items joined by
+   ONE character (the comma).  An inventory that is not expanded is a row of per-currency slots joined by the
+   separator: its length follows the separator and is not compared. *)
+RowLineIdx(ls) == SelectSeq([k \in 1..Len(ls) |-> k], LAMBDA k : ls[k].kind = "row")
+CsvFieldsOK(recs, ls, tb, o) ==
+    LET rows == RowLineIdx(ls)
+    IN /\ Len(rows) = Len(recs)
+       /\ \A q \in 1..Len(recs) : \A c \in 1..Len(tb) :
+            LET v == tb[c].vals[recs[q].r]
+            IN IF tb[c].t = "set" /\ ~IsNull(v) THEN recs[q].fields[c] = (IF recs[q].j = 1 THEN JoinLen(v.items, 1) ELSE 0)
+               ELSE IF tb[c].t = "inv" /\ ~IsNull(v) /\ ~o.expand THEN TRUE
+               ELSE recs[q].fields[c] = ls[rows[q]].cells[c].n
+
+-----------------------------------------------------------------------------
 (* Invariants of the mechanism (MC).  Lines only exist once the widths are fixed. *)
 TypeOK == phase \in {"update", "head", "rows", "done"} /\ r \in 1..(NRows(tab) + 1)
 ProtocolInv ==      \* Format is only ever called on a prepared renderer, for a value that was Update'd
@@ -372,4 +421,8 @@ SkeletonInv ==
 TightInv ==
     phase \in {"head", "rows", "done"} =>
         \A c \in 1..Len(tab) : widths[c] = Max2(Max2(1, IF opt.narrow THEN 1 ELSE tab[c].hl), Max2(opt.nl, rst[c].mw))
+\* CSV: whatever the text options, one record per (expanded) row, one field per column, the field = the text cell
+CsvInv ==
+    Finished => LET recs == CsvRecs(tab, opt)
+                IN CsvShapeOK(recs, tab, opt) /\ CsvFieldsOK(recs, lines, tab, opt)
 =============================================================================
